@@ -393,8 +393,49 @@ fn judge_transport(commands: &[String], split: usize, sep_arg: bool, sep_stdin: 
     obs
 }
 
+/// The transport relation through the real binary: `--command` is parsed by clap, stdin is a pipe.
+fn judge_transport_cli(commands: &[String], split: usize, sep_arg: bool, sep_stdin: bool) -> Obs {
+    let mut obs = Obs::default();
+    obs.key = hash_of(&("cli", commands, split, sep_arg, sep_stdin));
+    let split = split.min(commands.len());
+    obs.nontrivial = split > 0 && split < commands.len();
+    obs.label("transport-through-real-binary");
+    let join = |cmds: &[String], semi: bool| cmds.join(if semi { ";" } else { "\n" });
+    let arg_part = join(&commands[..split], sep_arg);
+    let stdin_part = join(&commands[split..], sep_stdin);
+    obs.show = Some(format!("lace debug p.asm --minimal --command {arg_part:?} < {stdin_part:?}"));
+    let dir = crate::cli::TempDir::new();
+    dir.write("p.asm", NAME_PROGRAM.as_bytes());
+    let all = commands.join("\n");
+    let reference = crate::cli::lace(&["debug", "p.asm", "--minimal", "--command", all.as_str()], dir.path(), &[], false, 60);
+    let variant = if split == 0 {
+        crate::cli::lace(&["debug", "p.asm", "--minimal"], dir.path(), stdin_part.as_bytes(), false, 60)
+    } else {
+        crate::cli::lace(&["debug", "p.asm", "--minimal", "--command", arg_part.as_str()], dir.path(), stdin_part.as_bytes(), false, 60)
+    };
+    if reference.timed_out || variant.timed_out {
+        obs.excluded = Some("watchdog");
+        return obs;
+    }
+    let rti = |r: &crate::cli::Run| String::from_utf8_lossy(&r.stderr).contains("RTI");
+    if rti(&reference) || rti(&variant) {
+        obs.excluded = Some("rti");
+        return obs;
+    }
+    if reference.panicked() || variant.panicked() {
+        obs.set_fail("C14:debugger-crashes", format!("reference: {}\nvariant: {}", reference.brief(), variant.brief()));
+    } else if reference.code != variant.code || reference.stdout != variant.stdout || reference.stderr != variant.stderr {
+        obs.set_fail(
+            "C14:transport-changes-meaning",
+            format!("the same script behaves differently through the real binary\n--command {arg_part:?} stdin {stdin_part:?}: {}\nall in --command: {}", variant.brief(), reference.brief()),
+        );
+    }
+    obs
+}
+
 pub fn judge_case(c: &Case) -> Obs {
     match c {
+        Case::Transport { commands, split, sep_arg, sep_stdin, decorate } if *decorate == 255 => judge_transport_cli(commands, *split, *sep_arg, *sep_stdin),
         Case::Tokens { tokens, with_break } => {
             let mut o = judge_tokens(tokens, *with_break);
             o.nontrivial = tokens.iter().any(|t| token_nontrivial(t));
@@ -429,7 +470,7 @@ impl Prop for C14 {
         "(a) ALL argument strings of length <= 4 (quick) / <= 5 (thorough) over the alphabet {+ - # x o b 0 1 8 a g ^ r _}, each used as `move r1 <t>` (value) and `goto <t>` (location), and up to length 3 also as `break add <t>`, against a program at origin 0 that defines 35 labels colliding with tricky spellings (xg, b8, o, x, r8, R00, _, ...); plus generated longer tokens: numbers at the i16/u16/i32 edges (and beyond 2^32) in every radix and sign position with leading zeros, label+-offset, ^offset, multi-byte characters. \
          Oracle RefCmd (doc comment of the integer parser, NaiveType table, help.txt): value accepted <=> documented integer in [-32768, 65535], R1 = v mod 2^16; location => PC / breakpoint list equals the resolved address; everything else => an error is reported and nothing changes; never a panic. \
          (b) every command name, alias and listed misspelling (one- and two-word forms) in 3 random letter cases: alias => transcript, output, exit and final state identical to the canonical name in a fixed scenario; misspelling => CommandError and no effect. `print` without argument = `print ^`. \
-         (c) generated scripts of 1-8 commands delivered through --command, through stdin, or split at every point, with `;` or newline as separator, empty commands and surrounding blanks: stdout, stderr, exit status and final state identical to the plain delivery. \
+         (c) generated scripts of 1-8 commands delivered through --command, through stdin, or split at every point, with `;` or newline as separator, empty commands and surrounding blanks: stdout, stderr, exit status and final state identical to the plain delivery (in-process through the real CommandReader, plus a sample through the real binary with a pipe as stdin). \
          Non-trivial: token with a sign/prefix and a digit; name variant; script split strictly inside. Distinct = token batch / name / (script, split)."
     }
     fn assumptions(&self) -> Vec<String> {
@@ -508,9 +549,22 @@ impl Prop for C14 {
         let strat = (prop::collection::vec(prop::sample::select(TRANSPORT_POOL.to_vec()), 1..9), any::<u16>(), any::<bool>(), any::<bool>(), any::<u8>()).prop_map(|(cmds, split, sep_arg, sep_stdin, decorate)| {
             let commands: Vec<String> = cmds.iter().map(|s| s.to_string()).collect();
             let split = (split as usize * (commands.len() + 1)) >> 16;
-            Case::Transport { commands, split, sep_arg, sep_stdin, decorate }
+            Case::Transport { commands, split, sep_arg, sep_stdin, decorate: decorate % 255 }
         });
         drive(ctx, rep, "transport", strat, k, &mut |c: &Case| judge_case(c));
+        // a sample through the real binary (decorate == 255 selects the process-level judge)
+        std::env::set_var("VERIF_MAX_SHRINK", "40");
+        let k = ctx.share(ctx.tier.pick(64, 1000));
+        let strat = (prop::collection::vec(prop::sample::select(TRANSPORT_POOL.to_vec()), 1..7), any::<u16>(), any::<bool>(), any::<bool>()).prop_map(|(cmds, split, sep_arg, sep_stdin)| {
+            let commands: Vec<String> = cmds.iter().map(|s| s.to_string()).collect();
+            let split = (split as usize * (commands.len() + 1)) >> 16;
+            Case::Transport { commands, split, sep_arg, sep_stdin, decorate: 255 }
+        });
+        drive(ctx, rep, "transport-cli", strat, k, &mut |c: &Case| judge_case(c));
+        std::env::remove_var("VERIF_MAX_SHRINK");
+    }
+    fn needs_cli(&self) -> bool {
+        true
     }
     fn replay(&self, _ctx: &Ctx, case: &Value) -> Obs {
         match serde_json::from_value::<Case>(case.clone()) {
